@@ -113,7 +113,11 @@ def main() -> int:
         ep = os.path.join(ROOT, c["evidence_file"])
         if os.path.exists(ep):
             ev = json.load(open(ep))
-            jsonschema.validate(ev, schema)
+            try:
+                jsonschema.validate(ev, schema)
+            except jsonschema.ValidationError as e:
+                print(f"  INVALID evidence {c['property_id']}: {e.message[:120]} (re-run the quick tier in full)")
+                continue
             if ev["level"] != c["level_claimed"]["category"]:
                 print(f"  WARNING {c['property_id']}: evidence level {ev['level']} != claimed {c['level_claimed']['category']}")
         else:
